@@ -366,3 +366,110 @@ def check_rendering(ctx, rid):
         ctx.ok(rid, "api.write_input forwards the object, template, atom_line and **kwargs under their own names", f"{wi.module.relpath}:{c.lineno}")
     else:
         ctx.violate(rid, f"api.write_input calls the input module as `{src_of(c)[:90]}`: the object, `template`, `atom_line` and `**kwargs` must be forwarded under their own names", wi, c)
+
+
+def check_geometry_lines(ctx, rid):
+    """The shared rendering routine interpreted on model objects with 0, 1 and 4 atoms and a recording atom-line
+    function: the `{geometry}` field of the rendered text is exactly one line per atom, in order, each produced by
+    calling the atom-line function with the object itself and the atom's index."""
+    from ..accessors import TextSink
+
+    prog = ctx.prog
+    base = input_base(prog)
+    iocls = prog.cls("iodata.iodata.IOData")
+    for natom in (4, 1, 0):
+        f = {name: None for name in iocls.fields}
+        # element numbers include a ghost centre (0) and a repeated element: no atom is filtered or merged
+        f.update(title="T", atnums=np.array([8, 0, 1, 1][:natom]), atcoords=np.zeros((natom, 3)), extra={}, atcharges={}, atffparams={}, moments={}, one_rdms={}, two_rdms={})
+        data = Rec(iocls, **{k: v for k, v in f.items() if k in iocls.fields})
+        calls = []
+
+        def atom_line(args, kw, calls=calls):
+            calls.append((args[0], int(args[1])))
+            return f"<atom {int(args[1])}>"
+
+        sink = TextSink()
+        ev = AccessorEval(prog, iocls, limit=4000)
+        ev.module = base.module
+        try:
+            ev.run_free(base, [sink, data, "[{geometry}]", ("<function>", atom_line), {}], {})
+        except Raised as exc:
+            ctx.violate(rid, f"{base.name} raises {exc.args[0]} for an object with {natom} atom(s)", base, base.node, construct=f"geometry lines: raises for {natom} atoms")
+            return
+        except NotSymbolic as exc:
+            raise AnalysisError(f"{base.qualname} is outside the evaluation whitelist: {exc}") from exc
+        want = "[" + "\n".join(f"<atom {i}>" for i in range(natom)) + "]\n"
+        if [c[1] for c in calls] != list(range(natom)) or any(c[0] is not data for c in calls):
+            ctx.violate(rid, f"{base.name}: the atom-line function is called for atoms {[c[1] for c in calls]} of an object with {natom} atoms (expected each index once, in order, with the object itself)", base, base.node, construct="geometry lines: atom_line calls")
+            return
+        if sink.text != want:
+            ctx.violate(rid, f"{base.name}: the geometry of {natom} atom(s) is rendered as {sink.text!r}, expected {want!r} (one line per atom, newline-joined)", base, base.node, construct="geometry lines: text")
+            return
+    ctx.ok(rid, f"{base.name}: the geometry field is one atom line per atom, in order, for 0, 1 and 4 atoms (atom-line function called with the object and each index once)", base.where)
+
+
+def check_default_atom_lines(ctx, rid):
+    """For every program: `write_input` interpreted without an `atom_line` argument hands a default atom-line function
+    to the shared routine; that function, interpreted on a model object (angstrom standing for 2), gives the element
+    symbol followed by x, y, z of that atom divided by angstrom."""
+    prog = ctx.prog
+    base = input_base(prog)
+    iocls = prog.cls("iodata.iodata.IOData")
+    al = base.posparams[3]
+    A = 2.0
+    nprog = 0
+    for short, m in sorted(prog.input_modules().items()):
+        wi = prog.funcs.get(f"{m.name}.write_input")
+        if wi is None:
+            continue
+        nprog += 1
+        f = {name: None for name in iocls.fields}
+        coords = np.array([[1.0, -2.5, 4.0], [0.5, 8.0, -16.0], [3.0, 6.0, 9.0]])
+        f.update(title="T", atnums=np.array([17, 1, 8]), atcoords=coords, extra={}, atcharges={}, atffparams={}, moments={}, one_rdms={}, two_rdms={})
+        data = Rec(iocls, **{k: v for k, v in f.items() if k in iocls.fields})
+        captured = {}
+
+        def stub(args, kw, captured=captured):
+            bound = dict(zip(base.posparams, args))
+            bound.update(kw)
+            captured["atom_line"] = bound.get(al)
+
+        try:
+            ev = AccessorEval(prog, iocls, limit=8000)
+            ev.module = wi.module
+            ev.stubs = {base.qualname: stub}
+            ev.run_free(wi, [object(), data], {})
+            fn = captured.get("atom_line")
+            if not (isinstance(fn, tuple) and fn and fn[0] == "<function>"):
+                ctx.violate(rid, f"{short}.write_input without an atom_line argument hands `{fn!r}` to {base.name} instead of a default atom-line function", wi, wi.node, construct=f"{short}: no default atom line")
+                continue
+            lines = []
+            for i in range(3):
+                ev2 = AccessorEval(prog, iocls, limit=4000)
+                ev2.module = fn[1].module if hasattr(fn[1], "module") else wi.module
+                ev2._globals = {("iodata.utils", "angstrom"): A}
+                lines.append(fn[1]([data, i], {}) if callable(fn[1]) else ev2.run_free(fn[1], [data, i], {}))
+        except Raised as exc:
+            ctx.violate(rid, f"{short}: the default atom line raises {exc.args[0]} on a plain object", wi, wi.node, construct=f"{short}: default atom line raises")
+            continue
+        except NotSymbolic as exc:
+            raise AnalysisError(f"{short}.write_input / its default atom line are outside the evaluation whitelist: {exc}") from exc
+        bad = None
+        for i, (line, sym) in enumerate(zip(lines, ["Cl", "H", "O"])):
+            toks = line.split() if isinstance(line, str) else []
+            try:
+                vals = [float(t) for t in toks[1:4]]
+            except ValueError:
+                vals = None
+            want = (coords[i] / A).tolist()
+            if len(toks) != 4 or toks[0] != sym:
+                bad = f"atom {i} ({sym} at {coords[i].tolist()} bohr) is written as {line!r}: expected the element symbol and three coordinates"
+            elif vals is None or any(abs(a_ - b_) > 1e-5 for a_, b_ in zip(vals, want)):
+                bad = f"atom {i} ({sym} at {coords[i].tolist()} bohr, angstrom = {A:g}) is written with coordinates {vals}, expected x y z / angstrom = {want}"
+            if bad:
+                break
+        if bad:
+            ctx.violate(rid, f"{short}: default atom line: {bad}", wi, wi.node, construct=f"{short}: default atom line: {bad}"[:160])
+        else:
+            ctx.ok(rid, f"{short}: the default atom line is `symbol x y z` with the coordinates of that atom divided by angstrom", wi.where)
+    ctx.floor(rid, nprog, 2, "input modules")
